@@ -76,6 +76,12 @@ def batchOf (capacity : Nat) : Nat := min uioMaxIov capacity
 
 def init (capacity : Nat) : State := { batch := batchOf capacity }
 
+/-- State right after `initialize()` of a later session of the same appender: `close()` leaves
+`_destinations` (and the index cached in every `FileObject`) in place, so the destinations of the
+file objects used so far, `files` in creation order, still exist, empty.  `init c = session c []`. -/
+def session (capacity : Nat) (files : List Nat) : State :=
+  { batch := batchOf capacity, dests := files.map (fun f => ⟨f, [], []⟩) }
+
 /-- `destination(item.file)` followed by `append_to_iovec(…, dest.iov)`. -/
 def addTo : List Dest → Item → List Dest
   | [], it => [⟨it.file, it.iov, [it]⟩]
